@@ -108,6 +108,97 @@ def run_models(n, seed, verbose=False):
                 break
         if len(bad) > 3:
             break
+    rb = run_models_b(max(10, n // 5), seed, verbose)
+    return {"evaluations": n + rb["evaluations"], "violations": (bad + rb["violations"])[:6]}
+
+
+def run_models_b(n, seed, verbose=False):
+    """second model family: a closed-loop load generator (a Source that also receives cross-partition feedback - sources and
+    probes are cross-partition targets too), a backend whose generator handler PARKS ON A FUTURE that a later local event
+    resolves (the resume must land on its own partition's heap and clock), run with the default pool and with
+    max_workers=1 (one worker thread reused for every partition)."""
+    from happysimulator import Entity, Event, Instant, Simulation
+    from happysimulator.core.sim_future import SimFuture
+    from happysimulator.load.source import Source
+    from happysimulator.load.source_event import SourceEvent
+    from happysimulator.parallel import ParallelSimulation, PartitionLink, SimulationPartition
+    bad = []
+    for m in range(n):
+        rnd = random.Random(seed * 7919 + m)
+        L = rnd.choice([0.05, 0.1, 0.013])
+        rate = rnd.choice([2, 4, 7])
+        end_s = rnd.choice([1.0, 2.0, 3.0])
+        park = rnd.choice([0.0, 0.003, 0.021, L, 2.5 * L])
+        every = rnd.choice([1, 2, 3])
+        workers = rnd.choice([None, 1, 1])
+
+        def build():
+            logs = {"lg": [], "fe": [], "be": []}
+
+            class FeedbackSource(Source):
+                def handle_event(self, event):
+                    if isinstance(event, SourceEvent):
+                        return super().handle_event(event)
+                    logs["lg"].append((event.time.nanoseconds, event.event_type))
+                    return []
+
+            class Frontend(Entity):
+                def handle_event(self, event):
+                    logs["fe"].append((self.now.nanoseconds, event.event_type))
+                    if event.event_type == "Req":
+                        return [Event(time=self.now + L, event_type="Fwd", target=self.backend)]
+                    return []
+
+            class Waker(Entity):
+                def handle_event(self, event):
+                    event.context["metadata"]["fut"].resolve(event.context["metadata"]["n"])
+                    return []
+
+            class Backend(Entity):
+                seen = 0
+
+                def handle_event(self, event):
+                    logs["be"].append((self.now.nanoseconds, event.event_type))
+                    self.seen += 1
+                    k = self.seen
+                    fut = SimFuture()
+                    got = yield 0.0, [Event(time=self.now + park, event_type="Wake", target=self.waker,
+                                            context={"metadata": {"fut": fut, "n": k}})]
+                    got = yield fut
+                    logs["be"].append((self.now.nanoseconds, f"resumed{got}"))
+                    out = [Event(time=self.now + L, event_type="Reply", target=self.frontend)]
+                    if k % every == 0:
+                        out.append(Event(time=self.now + L, event_type="Feedback", target=self.gen))
+                    return out
+            fe, be, wk = Frontend("fe"), Backend("be"), Waker("wk")
+            gen = FeedbackSource.constant(rate=rate, target=fe, event_type="Req", name="lg")
+            fe.backend, be.frontend, be.gen, be.waker = be, fe, gen, wk
+            return gen, fe, be, wk, logs
+        end = Instant.from_seconds(end_s)
+        gen, fe, be, wk, logs_s = build()
+        Simulation(end_time=end, sources=[gen], entities=[fe, be, wk]).run()
+        gen, fe, be, wk, logs_p = build()
+        parts = [SimulationPartition("g", entities=[fe], sources=[gen]), SimulationPartition("s", entities=[be, wk])]
+        links = list(PartitionLink.bidirectional("g", "s", min_latency=L))
+        kw = {} if workers is None else {"max_workers": workers}
+        try:
+            ParallelSimulation(parts, end_time=end, links=links, **kw).run()
+        except Exception as ex:      # noqa: BLE001
+            bad.append({"case": f"family-b model {m} seed {seed}: parallel run raised {type(ex).__name__}: {ex}"})
+            continue
+        end_ns = end.nanoseconds
+        for name in logs_s:
+            a = sorted(x for x in logs_s[name] if x[0] <= end_ns)
+            b = sorted(x for x in logs_p[name] if x[0] <= end_ns)
+            if a != b:
+                bad.append({"case": "parallel-differs-from-sequential", "family": "b", "model": m, "seed": seed, "entity": name,
+                            "L": L, "rate": rate, "park": park, "max_workers": workers,
+                            "missing_in_parallel": [x for x in a if x not in b][:3], "extra_in_parallel": [x for x in b if x not in a][:3]})
+                if verbose:
+                    print(bad[-1])
+                break
+        if len(bad) > 3:
+            break
     return {"evaluations": n, "violations": bad}
 
 
